@@ -33,12 +33,22 @@ def run(tier):
     model = Model()
     R = rng('C10', 'chunks')
     tmp = tempfile.mkdtemp(prefix='verif_c10_')
-    n_specs = 6 if tier == 'quick' else 30
+    n_specs = 7 if tier == 'quick' else 30
     try:
         for si in range(n_specs):
             vrl = R.choice([20, 24, 32, 48, 64])
             spec = filegen.gen_spec(R, n_lf=1, small=True, vrl=vrl, rows=R.choice([3, 5, 8]))
             spec['write'].update({'input_chunk_size': None, 'output_chunk_size': 2**20})
+            # every kind of data source in turn; the structured array with its columns in another order than the frame's
+            # and with columns no frame uses, once without and once with a row window
+            kind = ['struct', 'inline', 'hdf5', 'dict', 'struct'][si % 5]
+            rows_ = {o['data'].shape[0] for lf in spec['lfs'] for o in lf['objects'] if o['kind'] == 'channel'}
+            if kind != 'struct' or len(rows_) == 1:
+                spec['write']['data_kind'] = kind
+                if kind == 'struct':
+                    spec['write']['source_opts'] = {'perm_seed': R.randrange(1000), 'extra': 2, 'exact': False}
+                    if si % 5 == 0:
+                        spec['write'].update({'from_idx': 0, 'to_idx': None})
             ref = filegen.write(spec, tmp)
             if ref['status'] != 'ok':
                 chk.count('reference-write-failed')
